@@ -47,6 +47,7 @@ LITERALS = ["a", 'a"b', "a\\b", "é", "a\nb", "\x00", 'ab\\"', "日本", 'a""b',
 
 POOL_CAP = 10
 MAX_NODES = 150
+MAX_WIDE_NODES = 2400  # only for nodes with more than 40 children (key-encoding boundaries of the trie)
 
 
 class Failure(Exception):
@@ -124,7 +125,7 @@ class TreeWorld:
         for ci in child_idxs:
             t, m = self.pick(ci)
             total += len(m_paths(m))
-            if total > MAX_NODES:
+            if total > (MAX_NODES if len(child_idxs) <= 40 else MAX_WIDE_NODES):
                 break
             t, m = self.fresh_if_overlap(t, m, used)
             used |= set(m_ids(m))
@@ -592,7 +593,8 @@ def build_machine(focus: str):
         def inner(self, nt, ch):
             self.do(["inner", nt, ch])
 
-        @rule(nt=idx, c=idx, n=st.integers(min_value=27, max_value=40))
+        @rule(nt=idx, c=idx, n=st.one_of(st.integers(min_value=27, max_value=40), st.integers(min_value=41, max_value=120),
+                                         st.sampled_from([53, 54, 55, 56, 57, 80, 81, 82, 108, 109, 728, 729, 730, 755, 756, 757, 758])))
         def wide(self, nt, c, n):
             self.do(["inner", nt, [c] * n])
 
